@@ -611,7 +611,7 @@ func (s *Sched) enabled() []Trans {
 		}
 		if earliest >= 0 && (s.cfg.Horizon == 0 || earliest <= s.cfg.Horizon) {
 			for _, tm := range s.timers {
-				if tm.active && tm.deadline == earliest {
+				if tm.active && tm.deadline == earliest && (!tm.idleOnly || nonTimer == 0) {
 					en = append(en, Trans{Kind: tTimer, Tm: tm})
 				}
 			}
